@@ -280,7 +280,12 @@ func runHarnesses(rep *explore.Report, tier string, only string, bound int) {
 		}
 		h := h
 		outcomes := map[string]int{}
-		execs, _ := explore.Deviations(bound, 0, func(ch *vrt.Chooser) {
+		hb := bound
+		if len(h.Threads) >= 4 && hb > 2 {
+			hb = 2 // four threads with statement-level points: 3 preemptions would take hours; 2 are completed
+			rep.Set("preemption_bound_four_thread_harnesses", int64(hb))
+		}
+		execs, _ := explore.Deviations(hb, 0, func(ch *vrt.Chooser) {
 			out, sig, msg := h.runOnce(ch)
 			outcomes[out]++
 			if sig != "" {
